@@ -130,6 +130,6 @@ Proof. exact gen_tie_rules_ok. Qed.
 Print Assumptions TieGen_tie_rules_ok.
 
 Theorem TieGen_tie_all_translated :
-  filter is_tie_name gen_untranslated = [].
+  gen_untranslated_tie = [].
 Proof. exact gen_tie_all_translated. Qed.
 Print Assumptions TieGen_tie_all_translated.
